@@ -32,7 +32,7 @@ ASSUMPTIONS = [
     "entries of a user dictionary for keys beyond the 20 amino acids take no part in the reduction nor in the alphabet",
 ]
 REQUIRED = {"all": ["salted_objects", "cells_checked", "sizes_rejected", "laws_checked", "user_total_accepted", "user_invalid_rejected",
-                    "user_switch_on_same_object", "size_forms_accepted", "user_total_with_extra_keys", "user_bijections", "amino_acid_mapped_onto_extra_key", "longer_than_1000"]}
+                    "user_switch_on_same_object", "size_forms_accepted", "user_total_with_extra_keys", "user_bijections", "amino_acid_mapped_onto_extra_key", "longer_than_1000", "user_dictionaries_edited_in_place_between_calls"]}
 SIZES = [2, 3, 4, 5, 6, 8, 10, 11, 12, 15, 18, 20]
 NSEQ = {"quick": 600, "thorough": 4000}
 NUSER = {"quick": 800, "thorough": 6000}
@@ -231,6 +231,36 @@ def judge_user(case, rep, S):
             if out != want:
                 rep.viol("user_not_applied", "user alphabet %r on %s gave %s, residue-by-residue application gives %s (call %d on this object)" % (
                     ua, seq, out, want, step), sig={"step": step})
+            r3 = gen.sub_rng(case["o"] ^ (0x1212 + step), ID)       # own generator: the ordinary stream stays what it was
+            if r3.random() < 0.35:
+                # the caller goes on using the SAME dictionary object: edited in place to something invalid it must be refused, edited
+                # in place to another total mapping it must be applied as it now reads
+                rep.cnt("user_dictionaries_edited_in_place_between_calls")
+                k_ = r3.choice(list(M.AA) if r3.random() < 0.5 else list(seq))
+                old_ = ua[k_]
+                how_ = r3.choice(["bad_value", "deleted", "none"])
+                if how_ == "deleted":
+                    del ua[k_]
+                else:
+                    ua[k_] = r3.choice(["X", "B", "", "1"]) if how_ == "bad_value" else None
+                try:
+                    r_ = obj.get_reduced_alphabet_sequence(userAlphabet=ua)
+                except Exception:
+                    rep.cnt("user_invalid_rejected")
+                else:
+                    rep.viol("user_invalid_accepted", "a dictionary accepted before and then edited in place (%s for %s: %r) was accepted again on %s: %r" % (
+                        how_, k_, ua.get(k_, "<absent>"), seq, r_), sig={"kind": "edited_in_place"})
+                ua[k_] = r3.choice([a for a in M.AA if a != old_])
+                try:
+                    out2, alpha2 = red(obj, userAlphabet=ua)
+                except Exception as e:
+                    rep.viol("user_total_rejected", "a total user alphabet %r (edited in place) was rejected with %s: %s" % (ua, type(e).__name__, e))
+                else:
+                    want2 = "".join(ua[c] for c in seq)
+                    if out2 != want2 or sorted(alpha2) != sorted(set(ua[a] for a in M.AA)):
+                        rep.viol("user_not_applied", "user alphabet %r (the dictionary of the previous call, one entry changed: %s) on %s gave %s / %r, residue-by-residue application gives %s" % (
+                            ua, k_, seq, out2, alpha2, want2), sig={"step": step, "edited_in_place": True})
+                ua[k_] = old_
             reps = []
             for a in ua.values():
                 if a not in reps:
